@@ -3,7 +3,7 @@ import numpy as np
 
 from .. import env  # noqa: F401
 from ..core import Phase, Result
-from .. import scripted, snapshot, spans
+from .. import refsolver, scripted, snapshot, spans
 from .. import solvecheck as SC
 from ..util import attempt
 
@@ -174,6 +174,21 @@ def check_case(case):
     d = snapshot.first_diff_key(sb, sc)
     if d:
         res.fail('solve_period-vs-solve_t/state/' + d.split('/')[0], f'{detail}: differ at {d}')
+    # independent of the single-period solver as well: fold the reference machine of C02/C06 over the requested range
+    # (only where every requested period can accommodate the lags/leads - the machine has no notion of them)
+    if not dup and p0 >= L and p1 <= n - 1 - K:
+        names = SC.NAMES[:case.get('nvars', 1)]
+        ref = SC.state_of(make(case), names + ['X'])
+        ref['values'] = {k: np.array(v, dtype=float) for k, v in ref['values'].items()}
+        loose = False
+        for p in range(p0, p1 + 1):
+            want = refsolver.solve_t(ref, p, n, check=names, endogenous=names, evaluate=scripted.ref_evaluate_cb(script), **opts)
+            loose = loose or want.loose
+            if want.exc:
+                break
+        if not loose:
+            res.tag('reference-fold')
+            SC.compare_states(res, 'solve/reference-fold', A, ref, names + ['X'], detail)
     return res
 
 
